@@ -94,6 +94,11 @@ CHECKS = {
    "Server: GOAWAY last-stream-ids never increase and never fall below a stream already handed to accept(); graceful shutdown sends GOAWAY(2^31-1), then — once its PING is acknowledged — GOAWAY(real id), drains and completes; abrupt shutdown carries the caller's code. Client: streams above the peer's last-stream-id get no response and fail with the peer's exact code, streams at or below it complete in both directions (also when the connection window only suffices after the failed streams returned what they held), no new stream is opened once the GOAWAY was processed, the connection result carries code and debug data.",
    "Moments are sampled (event-count triggers), not enumerated.",
    "DESIGN.md §3 C15"),
+ "C03": ("sim-raw", "exploration",
+   "property-based testing (stateful): generated upload histories with every discard path and local window reconfigurations against an h2 server (reference peer) and in h2↔h2 exchanges; oracle = conservation invariants over a sampled read-only bookkeeping probe plus an independent advertised-window accountant on the tapped wire",
+   "Every 8 executor steps the guarded statistics probe is sampled: connection-level `available + in flight` must equal the configured target (a leak or a double credit breaks the sum), and bytes counted in flight must be held by an application receive handle that is still alive (data discarded for reset, dropped, finished, refused streams or as padding must have been credited back). From the wire: no WINDOW_UPDATE may raise an advertised stream window above the initial window in force or the connection window above the target in force, nor above 2^31-1, and the window computable from the wire must equal the endpoint's own belief at the end.",
+   "Stream-level conservation is decided from the wire (over-credit) and behaviourally (cooperative transfers complete under C06 with windows down to 1 byte); the probe exposes connection-level counters only.",
+   "DESIGN.md §3 C03"),
 }
 
 NOT_YET = "check not built yet in this round (machinery in progress; see DESIGN.md §5 build order)"
@@ -132,7 +137,7 @@ def main():
             {"name": "hpack-enc", "path": "harness/src/eng_hpack.rs", "serves_properties": ["C10"], "kind_free_text": "proptest-driven generated histories through h2's Codec write side; strict reference HPACK decoder as oracle"},
             {"name": "codec", "path": "harness/src/eng_codec.rs", "serves_properties": ["C12"], "kind_free_text": "h2 Codec as Sink/Stream over a scripted transport vs refmodel::wire"},
             {"name": "sim-pair", "path": "harness/src/{sim,sim_pair,eng_pair,oracles,tapx}.rs", "serves_properties": ["C01", "C02", "C04", "C05", "C06", "C07", "C17", "C19"], "kind_free_text": "deterministic simulator: h2 client and server on a waker-faithful single-thread executor over a scripted transport with an independent tap; proptest-generated programs/schedules/chunkings"},
-            {"name": "sim-raw", "path": "harness/src/{sim_raw,eng_raw}.rs", "serves_properties": ["C08", "C09", "C13", "C14", "C15"], "kind_free_text": "h2 endpoint against a scripted frame-level reference peer (cooperative core + generated deviation script) on the deterministic simulator"},
+            {"name": "sim-raw", "path": "harness/src/{sim_raw,eng_raw}.rs", "serves_properties": ["C03", "C08", "C09", "C13", "C14", "C15"], "kind_free_text": "h2 endpoint against a scripted frame-level reference peer (cooperative core + generated deviation script) on the deterministic simulator"},
             {"name": "hpack-dec", "path": "harness/src/eng_hpack.rs", "serves_properties": ["C11"], "kind_free_text": "differential h2 decoder vs RFC 7541 reference on generated/mutated/hostile blocks; whole-vs-split through Codec; exhaustive Huffman/integer sub-spaces"},
         ],
         "checks": checks,
